@@ -311,6 +311,54 @@ func opsC18() {
 			}
 		}
 	}
+	// integer literals at the edge of int64 and beyond it: the digits go to the judge, which decides whether they fit
+	for _, lit := range []string{"9223372036854775807", "9223372036854775808", "-9223372036854775808", "-9223372036854775809",
+		"18446744073709551616", "18446744073709551617", "10000000000000000000", "99999999999999999999", "-18446744073709551615",
+		"0000000000000000000000001", "00000000009223372036854775807", "1", "-1", "340282366920938463463374607431768211457",
+		"9223372036854775806", "-9223372036854775807", "123456789012345678901234567890"} {
+		neg := strings.HasPrefix(lit, "-")
+		digits := []interface{}{}
+		for _, c := range strings.TrimPrefix(lit, "-") {
+			digits = append(digits, int(c-'0'))
+		}
+		id++
+		outs := []interface{}{}
+		for _, how := range []string{"eq1", "plus0", "inlist", "infix"} {
+			src, infix := "", false
+			switch how {
+			case "eq1":
+				src = "(= " + lit + " 1)"
+			case "plus0":
+				src = "(+ n " + lit + ")"
+			case "inlist":
+				src = "(in n (1 " + lit + "))"
+			case "infix":
+				src, infix = "n == "+lit, true
+			}
+			for _, mask := range []int{0, 15} {
+				cc, _ := newConf(ConfOpts{Mask: mask, Infix: infix}, &Log{Phase: "compile"})
+				var e *eval.Expr
+				var err error
+				o := M{"how": how, "mask": mask, "src": src}
+				if p := safely(func() M { e, err = eval.Compile(cc, src); return nil }); p != nil {
+					o["cout"] = "panic"
+				} else if err != nil {
+					o["cout"] = "ce"
+				} else {
+					o["cout"] = "ok"
+					o["res"] = safely(func() M {
+						v, err := e.Eval(&eval.Ctx{VariableFetcher: &Fetcher{Vals: Env{"n": int64(1)}}})
+						return outcomeW(v, err)
+					})
+				}
+				if _, ok := o["res"]; !ok {
+					o["res"] = M{"t": "nil", "v": "nil"}
+				}
+				outs = append(outs, o)
+			}
+		}
+		emit(M{"fam": "ops", "for": "C18", "kind": "biglit", "id": id, "neg": neg, "digits": digits, "outs": outs, "src": "literal " + lit})
+	}
 	// division / modulo pairs, judged relationally
 	pairs := [][2]int64{}
 	for _, a := range ints {
